@@ -27,6 +27,11 @@
 //    "pay":{live,copies,dbl}; seen and cb additionally carry cp (copies of the received object) and mf (moved-from),
 //    "cb":{sub,n,alive,cp,mf} callback awaiter subscribed by native code on its future,
 //    "ev":[[c,tag]...], "ext":[state...], "live":frames alive (allocation balance), "ret":{st,v}}
+// Scenarios with header {"race":true,"form":..,"T":..} replay spec/Async/AsyncJoin.tla: a blocking delivery (join(),
+// start()+wait()/join()/sync()) racing with the completion of the coroutine on another thread, both threads managed
+// by vsched and yielding exactly at the atomic operations on the bound future's slot and on the sync_awaiter's flag;
+// labels JCheck JCas JWait FXchg FStore FNotify; projection {"j","f": pending operation of either thread, "slot",
+// "got":{st,v,cp,mf} what the party returned with, "end","ad": body ends / frame destructions}.
 // join() is executed on a thread managed by the controlled scheduler (cocls_verif/vsched.h): when the
 // body suspends, that thread blocks in sync_awaiter and the scenario continues on the controller thread
 // ("completion on another thread").
@@ -52,7 +57,7 @@ static constexpr int MAXC = 8;    // coroutines per program
 static constexpr int MAXK = 4;    // external futures per program
 static constexpr int MAXEV = 128;
 
-enum Kind { K_AW, K_CO, K_DA, K_DD, K_ST, K_FC, K_RF, K_PA, K_PD, K_RET, K_THR, K_BAD };
+enum Kind { K_AW, K_CO, K_DA, K_DD, K_ST, K_FC, K_RF, K_PA, K_PD, K_RET, K_THR, K_VF, K_BAD };
 struct StepDef { Kind k; int a; };
 struct Program {
     std::string text, T, root;
@@ -62,8 +67,8 @@ struct Program {
 };
 
 static Kind kind_of(const std::string &s) {
-    static const char *names[] = {"aw", "co", "da", "dd", "st", "fc", "rf", "pa", "pd", "ret", "thr"};
-    for (int i = 0; i < 11; i++) if (s == names[i]) return (Kind) i;
+    static const char *names[] = {"aw", "co", "da", "dd", "st", "fc", "rf", "pa", "pd", "ret", "thr", "vf"};
+    for (int i = 0; i < 12; i++) if (s == names[i]) return (Kind) i;
     return K_BAD;
 }
 
@@ -168,7 +173,9 @@ template <> struct PT<Tracked> {
     static Res val(const Tracked &x) { return Res{S_VAL, x.id, x.copies, x.moved_from}; }
 };
 // the external futures carry no payload of interest
-template <typename T> using ExtT = std::conditional_t<std::is_same_v<T, Tracked>, int, T>;
+// reference results ("ref"): the coroutine is async<Tracked &> and returns a reference to an object the world owns
+template <> struct PT<Tracked &> : PT<Tracked> {};
+template <typename T> using ExtT = std::conditional_t<std::is_same_v<std::remove_reference_t<T>, Tracked>, int, T>;
 
 struct CoStat {
     int run = 0, end = 0, lc = 0, ld = 0, ac = 0, ad = 0;
@@ -231,8 +238,13 @@ struct AProbe : cocls::async<T> {
 template <typename T>
 struct FProbe : cocls::future<T> {
     static auto state_mp() { return &FProbe::_state; }
-    static auto value_mp() { return &FProbe::_value; }
+    static auto slot_mp() { return &FProbe::_awaiter; }
     static auto exc_mp() { return &FProbe::_exception; }
+};
+
+template <typename T>
+struct PProbe : cocls::promise<T> {
+    static auto owner_mp() { return &PProbe::_owner; }
 };
 
 template <typename T>
@@ -241,9 +253,14 @@ static Res fut_state(cocls::future<T> &f) {
     if (!f.ready()) { r.st = S_PENDING; return r; }
     using S = cocls::future_common::State;
     auto st = f.*FProbe<T>::state_mp();
-    if (st == S::value) {
+    if (st == S::value || st == S::value_ref) {
+        // value() returns a reference: to the stored object, or (value_ref: a reference result, possibly seen through
+        // a value future constructed from a reference coroutine) to the object the coroutine referred to
         if constexpr (std::is_void_v<T>) r.st = S_VAL;
-        else r = PT<T>::val(f.*FProbe<T>::value_mp());     // by reference
+        else {
+            try { r = PT<T>::val(f.value()); }
+            catch (...) { r.st = S_OTHER; }
+        }
     }
     else if (st == S::exception) {
         r.st = S_EXC;
@@ -314,6 +331,14 @@ struct World {
     CountStore stores[MAXC + 1];
     AProbe<T> *objp[MAXC + 1] = {};
     cocls::future<T> *locf[MAXC + 1] = {};
+    // reference results: V is the value type; a value future future<V> may be constructed from a reference coroutine
+    // (future.h:232-236 with the ReturnsFuture concept, common.h:78-80): the object inside it IS a future<V &>
+    using V = std::remove_reference_t<T>;
+    static constexpr bool is_ref = std::is_reference_v<T>;
+    cocls::future<V> *locvf[MAXC + 1] = {};
+    std::optional<Tracked> referent[MAXC + 1];     // [c]: what coroutine c refers to; [0]: what native code puts into a claimed promise
+    int nref = 0;
+    long bufs_base = 0;
     // external futures
     using E = ExtT<T>;
     alignas(cocls::future<E>) unsigned char extbuf[MAXK + 1][sizeof(cocls::future<E>)];
@@ -322,8 +347,9 @@ struct World {
     std::optional<cocls::promise<E>> extp[MAXK + 1];
     // root
     std::optional<AProbe<T>> rootobj;
-    alignas(cocls::future<T>) unsigned char rootbuf[sizeof(cocls::future<T>)];
+    alignas(16) unsigned char rootbuf[sizeof(cocls::future<T>) > sizeof(cocls::future<V>) ? sizeof(cocls::future<T>) : sizeof(cocls::future<V>)];
     cocls::future<T> *rootf = nullptr;
+    cocls::future<V> *rootvf = nullptr;            // native code's future when it is a VALUE future over a reference coroutine
     Res ret;
     CbAwaiter cbaw;
     // accounting
@@ -372,6 +398,11 @@ struct World {
             extf[k] = new (extbuf[k]) cocls::future<E>();
             extp[k].emplace(extf[k]->get_promise());
         }
+        if constexpr (is_ref) {
+            for (int c = 0; c <= prog.N(); c++) { referent[c].emplace(c == 0 ? 77 : -1); nref++; }
+            Tracked::id_ctors = 0;
+        }
+        bufs_base = Tracked::bufs;
         base = alloc_balance();
         step_news = 0; adj_news = 0;   // (run_typed adds this step's own window afterwards: see there)
     }
@@ -383,7 +414,12 @@ struct World {
     void do_join() {
         try {
             if constexpr (std::is_void_v<T>) { rootobj->join(); ret = Res{S_VAL, 0}; }
-            else { T v = rootobj->join(); ret = PT<T>::val(v); }   // the returned prvalue itself (no copy, no move)
+            else {
+                // the returned prvalue itself (no copy, no move by the party); for a reference coroutine: whatever
+                // join() is declared to return
+                decltype(auto) v = rootobj->join();
+                ret = PT<T>::val(v);
+            }
         } catch (const TestExc &e) { ret = Res{S_EXC, e.code}; }
         catch (const cocls::await_canceled_exception &) { ret = Res{S_EXC, 200}; }
         catch (...) { ret = Res{S_OTHER, 0}; }
@@ -401,11 +437,15 @@ struct World {
             blocked = false;
         } else blocked = true;
     }
+    cocls::future<V> value_future_fn() { return make(1); }
     void subscribe_cb() {
         cbaw.ctx = this;
         cbaw.alive_fn = [](void *c) { return static_cast<World *>(c)->frame_alive(1); };
-        cbaw.obs_fn = [](void *c) { auto w = static_cast<World *>(c); return w->read_api(*w->rootf, false); };
-        if (rootf->subscribe(&cbaw)) cbaw.sub = true;
+        cbaw.obs_fn = [](void *c) {
+            auto w = static_cast<World *>(c);
+            return w->rootvf ? w->read_api(*w->rootvf, false) : w->read_api(*w->rootf, false);
+        };
+        if (rootvf ? rootvf->subscribe(&cbaw) : rootf->subscribe(&cbaw)) cbaw.sub = true;
     }
     void root_start() {
         const std::string &m = prog.root;
@@ -427,6 +467,19 @@ struct World {
                 on_fresh_thread([&] { closure(); });
             });
             subscribe_cb();
+        } else if (m == "vfctor") {
+            // future<V> f(ref_coroutine)
+            rootvf = new (rootbuf) cocls::future<V>(*rootobj);
+            subscribe_cb();
+        } else if (m == "vshift") {
+            // future<V> f; f << ref_coroutine   (result_of, future.h:295-313)
+            rootvf = new (rootbuf) cocls::future<V>();
+            (*rootvf) << *rootobj;
+            subscribe_cb();
+        } else if (m == "vretfn") {
+            // a plain function declared future<V> that returns the reference coroutine
+            rootvf = new (rootbuf) cocls::future<V>(value_future_fn());
+            subscribe_cb();
         } else if (m == "retfut") {
             rootf = new (rootbuf) cocls::future<T>(body_fut<T>(*this, 1, Guard<T>(*this, 1)));
             subscribe_cb();
@@ -434,7 +487,7 @@ struct World {
             rootf = new (rootbuf) cocls::future<T>();
             cocls::promise<T> p = rootf->get_promise();
             if (m == "claimed") {
-                if constexpr (std::is_void_v<T>) p(); else p(PT<T>::make(77));
+                if constexpr (std::is_void_v<T>) p(); else if constexpr (is_ref) p(*referent[0]); else p(PT<T>::make(77));
             }
             bool r = rootobj->start(p);
             ret = Res{r ? S_TRUE : S_FALSE, 0};
@@ -472,6 +525,11 @@ struct World {
             if (rootf->ready()) { rootf->~future(); rootf = nullptr; }
             else fail("root future still pending at the end");
         }
+        if (rootvf) {
+            st.co[1].seen = rootvf->ready() ? read_api(*rootvf, true) : fut_state(*rootvf);
+            if (rootvf->ready()) { rootvf->~future(); rootvf = nullptr; }   // must not destroy anything it does not own
+            else fail("root future still pending at the end");
+        }
         for (int k = 1; k <= prog.K; k++) {
             extp[k].reset();
             ext_final[k] = fut_state(*extf[k]).st;
@@ -480,12 +538,99 @@ struct World {
         }
     }
 
+    // ---- race of a blocking delivery with a completion on another thread (AsyncJoin.tla) ----
+    int ft = -1;
+    cocls::future<T> *bound = nullptr;     // the future the coroutine is bound to (a temporary inside join() / a local)
+    static inline const void *race_ext[2] = {nullptr, nullptr};
+    // scheduling points: marks, the load in future_common::ready, the CAS in subscribe_check_ready, the exchange in
+    // resume_chain_set_ready, the store in sync_awaiter::wakeup, notify (wait is always one); never the operations on
+    // the external future / its promise (that race is the Future protocol's own business, C01/C02)
+    static bool race_no_yield(const cocls_verif::event &e) {
+        using cocls_verif::op_t;
+        if (e.op == op_t::mark) return false;
+        for (const void *x : race_ext) if (x && e.obj == x) return true;
+        switch (e.op) {
+            case op_t::load: case op_t::conv: return strstr(e.func, "future_common::ready(") == nullptr;
+            case op_t::cas: return strstr(e.func, "subscribe_check_ready") == nullptr;
+            case op_t::xchg: return strstr(e.func, "resume_chain_set_ready") == nullptr;
+            case op_t::store: case op_t::assign: return strstr(e.func, "wakeup") == nullptr;
+            case op_t::notify: return false;
+            default: return true;
+        }
+    }
+    void race_party(const std::string &form) {
+        if (form == "join") { do_join(); return; }
+        try {
+            cocls::future<T> f = rootobj->start();
+            if constexpr (std::is_void_v<T>) {
+                if (form == "wait") f.wait(); else if (form == "fjoin") f.join(); else { f.sync(); f.value(); }
+                ret = Res{S_VAL, 0};
+            } else {
+                if (form == "wait") ret = PT<T>::val(f.wait());
+                else if (form == "fjoin") ret = PT<T>::val(f.join());
+                else { f.sync(); ret = PT<T>::val(f.value()); }
+            }
+        } catch (const TestExc &e) { ret = Res{S_EXC, e.code}; }
+        catch (...) { ret = Res{S_OTHER, 0}; }
+    }
+    const char *race_pend(int t) {
+        using cocls_verif::op_t;
+        if (sched->done(t)) return "done";
+        switch (sched->pending(t).op) {
+            case op_t::mark: return "mark";
+            case op_t::load: case op_t::conv: return "check";
+            case op_t::cas: return "cas";
+            case op_t::wait: return "wait";
+            case op_t::xchg: return "xchg";
+            case op_t::store: case op_t::assign: return "store";
+            case op_t::notify: return "notify";
+            default: return "?";
+        }
+    }
+    // brings both threads to the initial state of the specification; false: the implementation does not get there
+    bool race_begin(const std::string &form, std::string &why) {
+        setup();
+        create();
+        race_ext[0] = &(extf[1]->*FProbe<E>::slot_mp());
+        race_ext[1] = &((*extp[1]).*PProbe<E>::owner_mp());
+        sched.reset(new vsched());
+        sched->log_enabled = false;
+        sched->no_yield = &World::race_no_yield;
+        sched->install();
+        jt = sched->spawn([this, form] { warm_thread(); vsched::mark("go"); race_party(form); });
+        sched->step(jt);     // starts the coroutine (the body suspends on ext[1]) and arrives at its first check
+        if (std::string(race_pend(jt)) != "check") { why = std::string("joiner arrives at '") + race_pend(jt) + "' instead of its readiness check"; return false; }
+        if (!frame_alive(1) || !st.co[1].haddr) { why = "coroutine frame not alive after the start"; return false; }
+        bound = std::coroutine_handle<cocls::async_promise<T>>::from_address(st.co[1].haddr).promise()._future;
+        if (!bound) { why = "coroutine not bound to a future"; return false; }
+        ft = sched->spawn([this] { warm_thread(); vsched::mark("go"); resolve_here(1, "val"); });
+        sched->step(ft);     // resumes the body on this thread, runs it to its end, arrives at the exchange of resolve()
+        if (std::string(race_pend(ft)) != "xchg") { why = std::string("finisher arrives at '") + race_pend(ft) + "' instead of the resolving exchange"; return false; }
+        return true;
+    }
+    J race_project() {
+        J m = J::map();
+        m.set("j", race_pend(jt));
+        m.set("f", race_pend(ft));
+        std::string slot = "gone";
+        if (!sched->done(jt)) {
+            cocls::awaiter *a = (bound->*FProbe<T>::slot_mp()).verif_peek();
+            slot = (a == nullptr || a == &cocls::awaiter::instance) ? "none" : a == &cocls::awaiter::disabled ? "ready" : "sync";
+        }
+        m.set("slot", slot);
+        m.set("got", seen_j(sched->done(jt) ? ret : Res()));
+        m.set("end", st.co[1].end);
+        m.set("ad", st.co[1].ad);
+        return m;
+    }
+
     // what a party reads off a future it owns through the public API: value() / wait() return a reference
-    Res read_api(cocls::future<T> &f, bool by_wait) {
+    template <typename X>
+    Res read_api(cocls::future<X> &f, bool by_wait) {
         Res r = fut_state(f);
-        if constexpr (!std::is_void_v<T>) {
+        if constexpr (!std::is_void_v<X>) {
             if (r.st == S_VAL) {
-                try { r = by_wait ? PT<T>::val(f.wait()) : PT<T>::val(f.value()); }
+                try { r = by_wait ? PT<X>::val(f.wait()) : PT<X>::val(f.value()); }
                 catch (...) { r = Res{S_OTHER, 0}; }
             }
         }
@@ -499,12 +644,12 @@ struct World {
         auto h = std::coroutine_handle<cocls::async_promise<T>>::from_address(st.co[c].haddr);
         cocls::future<T> *f = h.promise()._future;
         if (!f) return "null";
-        if (f == rootf) return "root";
-        if (f == locf[c]) return "loc";
+        if (f == rootf || (rootvf && (void *) f == (void *) rootvf)) return "root";
+        if (f == locf[c] || (locvf[c] && (void *) f == (void *) locvf[c])) return "loc";
         return "other";
     }
     long live() {
-        long n = alloc_balance() - base - adj - Tracked::bufs;   // payload buffers are not frames
+        long n = alloc_balance() - base - adj - (Tracked::bufs - bufs_base);   // payload buffers are not frames
         for (int c = 1; c <= prog.N(); c++) n += st.co[c].sa - st.co[c].sd;
         return n;
     }
@@ -543,8 +688,9 @@ struct World {
             cn.set("ac", s.ac); cn.set("ad", s.ad); cn.set("end", s.end); cn.set("lc", s.lc); cn.set("ld", s.ld); cn.set("run", s.run);
             o.set("cnt", cn);
             Res fr;
-            if (c == 1) { if (rootf) fr = fut_state(*rootf); }
+            if (c == 1) { if (rootf) fr = fut_state(*rootf); else if (rootvf) fr = fut_state(*rootvf); }
             else if (locf[c]) fr = fut_state(*locf[c]);
+            else if (locvf[c]) fr = fut_state(*locvf[c]);
             o.set("fut", res_j(fr));
             o.set("obj", !objp[c] ? "none" : objp[c]->holds() ? "holds" : "empty");
             o.set("seen", seen_j(s.seen));
@@ -556,8 +702,11 @@ struct World {
         cbj.set("cp", cbaw.obs.cp); cbj.set("mf", cbaw.obs.mf);
         m.set("cb", cbj);
         J pay = J::map();
-        pay.set("live", Tracked::live); pay.set("copies", Tracked::copies_total); pay.set("dbl", Tracked::dbl);
+        pay.set("live", Tracked::live - nref); pay.set("copies", Tracked::copies_total); pay.set("dbl", Tracked::dbl);
         m.set("pay", pay);
+        J rm = J::list();      // has the object a reference coroutine referred to been moved from?
+        for (int c = 1; c <= prog.N(); c++) rm.push(referent[c] ? referent[c]->moved_from : false);
+        m.set("rm", rm);
         if (obs_alloc) m.set("la", lib_news());
         J ev = J::list();
         for (int i = 0; i < st.nev; i++) { J e = J::list(); e.push(st.ev_c[i]); e.push(std::string(1, st.ev_t[i])); ev.push(e); }
@@ -584,6 +733,13 @@ struct RegFut {
     World<T> &w; int c;
     RegFut(World<T> &w_, int c_, cocls::future<T> *f) : w(w_), c(c_) { w.locf[c] = f; }
     ~RegFut() { w.locf[c] = nullptr; }
+};
+
+template <typename T>
+struct RegVFut {
+    World<T> &w; int c;
+    RegVFut(World<T> &w_, int c_, cocls::future<std::remove_reference_t<T>> *f) : w(w_), c(c_) { w.locvf[c] = f; }
+    ~RegVFut() { w.locvf[c] = nullptr; }
 };
 
 // co_await EXPR, record what this (awaiting) coroutine observed of child ch
@@ -637,6 +793,12 @@ struct RegFut {
                 cocls::future<T> f(a); RegFut<T> rf(w, ch, &f); \
                 OBSERVE(f) \
             } break; \
+            case K_VF: { \
+                /* a VALUE future constructed from the (reference) coroutine, then awaited */ \
+                AProbe<T> a(w.make(ch)); RegObj<T> ro(w, ch, &a); \
+                cocls::future<std::remove_reference_t<T>> f(a); RegVFut<T> rf(w, ch, &f); \
+                OBSERVE(f) \
+            } break; \
             case K_RF: { \
                 OBSERVE(body_fut<T>(w, ch, Guard<T>(w, ch))) \
             } break; \
@@ -659,7 +821,10 @@ struct RegFut {
             case K_RET: { \
                 w.st.co[c].end++; w.st.log(c, 'e'); \
                 if constexpr (std::is_void_v<T>) co_return; \
-                else { \
+                else if constexpr (std::is_reference_v<T>) { \
+                    w.referent[c]->id = c + 10 * w.st.co[c].acc; \
+                    co_return *w.referent[c];                                                      /* reference result */ \
+                } else { \
                     const int id_ = c + 10 * w.st.co[c].acc; \
                     if (s_.a == 1) { T v_ = PT<T>::make(id_); co_return v_; }                      /* co_return variable */ \
                     else if (s_.a == 2) { T v_ = PT<T>::make(id_); co_return std::move(v_); }      /* std::move(variable) */ \
@@ -674,7 +839,7 @@ struct RegFut {
         } \
     } \
     w.fail("body without ret/thr"); \
-    if constexpr (std::is_void_v<T>) co_return; else co_return PT<T>::make(-1);
+    if constexpr (std::is_void_v<T>) co_return; else if constexpr (std::is_reference_v<T>) co_return *w.referent[c]; else co_return PT<T>::make(-1);
 
 template <typename T>
 cocls::async<T> body_new(World<T> &w, int c, Guard<T> g) { BODY_IMPL }
@@ -719,8 +884,69 @@ static void run_typed(const Scenario &sc, Reporter &rep, const Program &prog) {
     g_stats = nullptr;
 }
 
+template <typename T>
+static void run_race(const Scenario &sc, Reporter &rep) {
+    World<T> *w = new World<T>();
+    Program prog;
+    parse_program(sc.hdr.at("T").as_str("int") + "|join|1|aw1,ret0", prog);
+    w->prog = prog;
+    const std::string form = sc.hdr.at("form").as_str("join");
+    std::string why;
+    bool ok = true;
+    if (!w->race_begin(form, why)) { rep.diverge(0, why + " got=" + w->race_project().dump()); ok = false; }
+    for (std::size_t k = 0; k < sc.steps.size() && ok; k++) {
+        const Step &s = sc.steps[k];
+        int t = s.name[0] == 'J' ? w->jt : w->ft;
+        if (!w->sched->enabled(t)) {
+            rep.diverge(k, std::string("thread not enabled in the implementation (") + (w->sched->done(t) ? "finished" : "blocked") +
+                           ") got=" + w->race_project().dump());
+            ok = false;
+            break;
+        }
+        // the pending operation must be the one the action is about
+        const char *want = s.name == "JCheck" ? "check" : s.name == "JCas" ? "cas" : s.name == "JWait" ? "wait" :
+                           s.name == "FXchg" ? "xchg" : s.name == "FStore" ? "store" : s.name == "FNotify" ? "notify" : "?";
+        if (std::string(w->race_pend(t)) != want) {
+            rep.diverge(k, std::string("pending operation is '") + w->race_pend(t) + "' got=" + w->race_project().dump());
+            ok = false;
+            break;
+        }
+        w->sched->step(t);
+        if (!rep.check(k, w->race_project())) ok = false;
+    }
+    bool drained = w->sched->drain(10000);
+    if (ok && !drained) {
+        rep.diverge(sc.steps.size() - 1, "deadlock: a thread is blocked for ever at the end of the schedule got=" + w->race_project().dump());
+        ok = false;
+    }
+    if (drained) {
+        w->sched->join_all();
+        w->sched->uninstall();
+        w->sched.reset();
+        if (ok) {
+            w->drop_obj();
+            w->finish();
+            if (w->chk != "ok" || Tracked::live != 0 || Tracked::dbl != 0) rep.diverge(sc.steps.size() - 1, "after the race: " + w->chk + " payload objects alive " + std::to_string(Tracked::live));
+            else { delete w; w = nullptr; }
+        }
+    } else {
+        // a thread is stuck inside library code: nothing can be unwound
+        w->sched->uninstall();
+        (void) w->sched.release();
+    }
+    CountStore::nblocks = 0;
+    g_stats = nullptr;
+}
+
 static void run(const Scenario &sc, Reporter &rep) {
     if (sc.steps.empty()) return;
+    if (sc.hdr.at("race").as_bool(false)) {
+        const std::string T = sc.hdr.at("T").as_str("int");
+        if (T == "void") run_race<void>(sc, rep);
+        else if (T == "trk") run_race<Tracked>(sc, rep);
+        else run_race<int>(sc, rep);
+        return;
+    }
     JV e0 = JReader(sc.steps[0].expected).parse();
     Program prog;
     if (sc.steps[0].name != "Setup" || !parse_program(e0.at("P").as_str(), prog)) {
@@ -729,9 +955,25 @@ static void run(const Scenario &sc, Reporter &rep) {
     }
     if (prog.T == "void") run_typed<void>(sc, rep, prog);
     else if (prog.T == "trk") run_typed<Tracked>(sc, rep, prog);
+    else if (prog.T == "ref") run_typed<Tracked &>(sc, rep, prog);
     else run_typed<int>(sc, rep, prog);
 }
 
-int main() {
+// what does async<T &>::join() hand out?  (the specification follows the code: constant JoinRef)
+static Tracked *g_probe_obj = nullptr;
+static cocls::async<Tracked &> probe_ref_coro() { co_return *g_probe_obj; }
+
+int main(int argc, char **argv) {
+    if (argc > 1 && !strcmp(argv[1], "--probe-join-ref")) {
+        Tracked obj(1);
+        g_probe_obj = &obj;
+        decltype(auto) v = probe_ref_coro().join();
+        const char *r = "unknown";
+        if constexpr (std::is_reference_v<decltype(v)>) { if (&v == &obj && !obj.moved_from) r = "ref"; }
+        else if (obj.moved_from && !v.moved_from && v.copies == 0) r = "moves";
+        else if (!obj.moved_from && v.copies == 1) r = "copies";
+        printf("JOINREF %s\n", r);
+        return 0;
+    }
     return replay_main(std::cin, run);
 }
